@@ -27,6 +27,17 @@ ENV = dict(os.environ, CARGO_NET_OFFLINE="true", CARGO_TARGET_DIR=TARGET)
 
 
 
+def link_repo():
+    """`.build/repo` -> the tree under test (default /repo; COPIA_REPO overrides, used to run the checks
+    against a scratch worktree, e.g. the pinned commit or a seeded change)."""
+    os.makedirs(BUILD, exist_ok=True)
+    ln = os.path.join(BUILD, "repo")
+    if not (os.path.islink(ln) and os.readlink(ln) == REPO):
+        if os.path.lexists(ln):
+            os.remove(ln)
+        os.symlink(REPO, ln)
+
+
 def log(msg):
     print(f"[check] {msg}", flush=True)
 
@@ -258,6 +269,7 @@ def check(pid, tier, replay=None):
     cfg = PROPS[pid]
     seed = int(os.environ.get("VERIF_SEED", "1") or 1)
     os.makedirs(EVID, exist_ok=True)
+    link_repo()
     rundir = os.path.join(BUILD, "run", pid)
     shutil.rmtree(rundir, ignore_errors=True)
     os.makedirs(rundir, exist_ok=True)
